@@ -11,10 +11,10 @@ EXPLANATION = (
     "absorb the token). R5.2 the flag is monotone: it is assigned false only before the loop, every other write is true "
     "(`--` seen / trailing_var_arg). R5.3 tail values are pushed verbatim (to_value_os().to_owned(), no lossy conversion) "
     "and R5.4 the dont_delimit_trailing_values exemption in react covers every value index at or after trailing_idx (a "
-    "threshold comparison, not equality with one index); R5.5 values injected for an empty occurrence (default_missing_vals) are not treated as trailing (trailing_idx reset before the injection). R5.6 positional counter after the escape: the counter jumps to the last positional only on the trailing_values edge; the allow_missing_positional look-ahead (`missing_pos`) is disabled once trailing_values holds; every rejection of a token in Parser::parse as an unknown argument sits on the !trailing_values edge (tail tokens are never `unknown`, in particular a `last` positional accepts them). NOT decided: the rest of the positional-counter arithmetic, byte equality for all tails."
+    "threshold comparison, not equality with one index); R5.5 values injected for an empty occurrence (default_missing_vals) are not treated as trailing (trailing_idx reset before the injection). R5.6 positional counter after the escape: the counter jumps to the last positional only on the trailing_values edge; the allow_missing_positional look-ahead (`missing_pos`) is disabled once trailing_values holds; every rejection of a token in Parser::parse as an unknown argument sits on the !trailing_values edge (tail tokens are never `unknown`, in particular a `last` positional accepts them). `contains_last` is existential over all arguments (any(get_arguments|get_positionals, is_last_set)), not a property of one particular positional. R5.7 the trailing index is first-wins: ArgMatcher::pending_values_mut records trailing_idx only if none is recorded yet (Option::get_or_insert / a write guarded by is_none) with the current number of pending values, on the trailing_values edge — it marks where the tail STARTS. NOT decided: the rest of the positional-counter arithmetic, byte equality for all tails."
 )
 TRUSTED = ["rustc MIR", "clapfacts", "edge-dominance on the MIR CFG"]
-ASSUMPTIONS = ["ArgMatcher::start_trailing records the index of the first trailing value in the pending argument"]
+ASSUMPTIONS = ["PendingArg::trailing_idx is handed unchanged to react by resolve_pending (checked: C02/C06 react call-site census)"]
 
 SHAPE = (r"clap_builder::parser::parser::Parser::(possible_subcommand|parse_long_arg|parse_short_arg|is_new_arg|parse_help_subcommand|possible_long_flag_subcommand)$|"
          r"clap_lex::ParsedArg::(is_escape|to_long|to_short|is_long|is_short|is_negative_number)$")
@@ -146,3 +146,31 @@ def run(ctx):
     for c in ua:
         res.check(has_bool(pp, c.bb, "F", r"^trailing_values$"), "R5.6", "no-unknown-argument-after-escape|" + ("last" if has_bool(pp, c.bb, "T", r"^is_last_set\(") else "other"), c.where(),
                   "unknown-argument rejection only before `--`", "a token after `--` can be rejected as an unknown argument (guards %s)" % [g[:60] for g in guard_strs(pp, c.bb) if re.match(r"^[TF]:", g)])
+
+    cls = pp.locals_named("contains_last")
+    res.floor("R5.6", "`contains_last` local in Parser::parse", len(cls), 1)
+    for l in cls:
+        for d in pp.def_sites(l):
+            c = d[3]
+            if isinstance(c, dict):
+                continue
+            e = expr(pp, {"cp": l})
+            okq = c.callee_q.endswith("::any") and re.fullmatch(r"any\(get_(arguments|positionals)\(self\.cmd\),closure\(\)\)", e) is not None and \
+                any(expr(cb, 0) == "is_last_set(arg2)" or (cb.calls_to(r"Arg::is_last_set$") and not expr(cb, 0).startswith("Not(")) for cb in closure_bodies(fx, c))
+            res.check(okq, "R5.6", "contains-last-is-existential", c.where(), "contains_last = any argument has last(true)",
+                      "contains_last is computed as %s: a `last` positional that is not the one inspected is missed and the jump after `--` does not happen" % e[:90])
+
+    # ---- R5.7 first-wins trailing index
+    pv = fx.body("clap_builder::parser::arg_matcher::ArgMatcher::pending_values_mut")
+    goi = [c for c in pv.calls_to(r"Option::get_or_insert$") if re.search(r"\.trailing_idx$", expr(pv, c.args[0]))]
+    wti = writes_field(pv, "trailing_idx")
+    guarded_w = [i for i, s_ in wti if has_bool(pv, i, "T", r"^is_none\(.*\.trailing_idx\)$")]
+    if not goi and not wti:
+        res.violation("R5.7", "trailing-index-first-wins", pv.where(), "pending_values_mut no longer records where the trailing values start")
+    else:
+        bad = [i for i, s_ in wti if i not in guarded_w]
+        res.check(not bad, "R5.7", "trailing-index-first-wins", pv.where(), "trailing_idx recorded once (get_or_insert / guarded by is_none)",
+                  "pending_values_mut overwrites trailing_idx on every trailing value: it ends up marking the LAST tail value, so earlier tail values are split at the delimiter despite dont_delimit_trailing_values")
+    for c in goi:
+        res.check(has_bool(pv, c.bb, "T", r"^trailing_values$") and re.fullmatch(r"len\(.*\.raw_vals\)", expr(pv, c.args[1])) is not None, "R5.7", "trailing-index-value", c.where(),
+                  "trailing_idx = number of values already pending, only when trailing_values", "trailing_idx recorded as %s under %s" % (expr(pv, c.args[1])[:60], guard_strs(pv, c.bb)))
